@@ -27,7 +27,7 @@ pub(crate) fn gf_ref_mul(a: u128, b: u128, poly: u128, bits: u32) -> u128 {
 }
 
 macro_rules! gf_common {
-    ($modname:ident, $f:ty, $bytes:expr, $bits:expr, $unw:literal, $consts:ident, $addsub:ident, $conv:ident, $trunc:ident) => {
+    ($modname:ident, $f:ty, $bytes:expr, $bits:expr, $unw:literal, $consts:ident, $addsub:ident, $conv:ident, $trunc:ident, $assign:ident, $peq:ident) => {
         pub(crate) mod $modname {
             use super::*;
             pub(crate) const BYTES: usize = $bytes;
@@ -87,7 +87,7 @@ macro_rules! gf_common {
 
             harness! {
                 #[kani::unwind($unw)]
-                fn t08_add_sub_assign() {
+                fn $assign() {
                     let (a, ai) = any_elem();
                     let (b, bi) = any_elem();
                     let mut c = a;
@@ -102,7 +102,7 @@ macro_rules! gf_common {
 
             harness! {
                 #[kani::unwind($unw)]
-                fn t08_partial_eq() {
+                fn $peq() {
                     let (a, ai) = any_elem();
                     let (b, bi) = any_elem();
                     assert!((a == b) == (ai == bi));
@@ -147,13 +147,13 @@ macro_rules! gf_common {
     };
 }
 
-gf_common!(gf2, Gf2, 1, 1, 10, q08_constants_neg, q08_add_sub_eq, t08_as_u128_ord_index, q08_truncate_try_from);
-gf_common!(gf3, Gf3Bit, 1, 3, 10, q08_constants_neg, q08_add_sub_eq, q08_as_u128_ord_index, q08_truncate_try_from);
-gf_common!(gf8, Gf8Bit, 1, 8, 10, q08_constants_neg, q08_add_sub_eq, q08_as_u128_ord_index, q08_truncate_try_from);
-gf_common!(gf9, Gf9Bit, 2, 9, 18, q08_constants_neg, t08_add_sub_eq, t08_as_u128_ord_index, t08_truncate_try_from);
-gf_common!(gf20, Gf20Bit, 3, 20, 26, q08_constants_neg, t08_add_sub_eq, t08_as_u128_ord_index, t08_truncate_try_from);
-gf_common!(gf32, Gf32Bit, 4, 32, 34, q08_constants_neg, t08_add_sub_eq, t08_as_u128_ord_index, t08_truncate_try_from);
-gf_common!(gf40, Gf40Bit, 5, 40, 42, q08_constants_neg, t08_add_sub_eq, t08_as_u128_ord_index, t08_truncate_try_from);
+gf_common!(gf2, Gf2, 1, 1, 10, q08_constants_neg, q08_add_sub_eq, t08_as_u128_ord_index, q08_truncate_try_from, t08_add_sub_assign, t08_partial_eq);
+gf_common!(gf3, Gf3Bit, 1, 3, 10, q08_constants_neg, q08_add_sub_eq, q08_as_u128_ord_index, q08_truncate_try_from, t08_add_sub_assign, x08_partial_eq);
+gf_common!(gf8, Gf8Bit, 1, 8, 10, q08_constants_neg, q08_add_sub_eq, q08_as_u128_ord_index, q08_truncate_try_from, x08_add_sub_assign, t08_partial_eq);
+gf_common!(gf9, Gf9Bit, 2, 9, 18, q08_constants_neg, t08_add_sub_eq, t08_as_u128_ord_index, x08_truncate_try_from, t08_add_sub_assign, x08_partial_eq);
+gf_common!(gf20, Gf20Bit, 3, 20, 26, q08_constants_neg, x08_add_sub_eq, x08_as_u128_ord_index, x08_truncate_try_from, t08_add_sub_assign, x08_partial_eq);
+gf_common!(gf32, Gf32Bit, 4, 32, 34, q08_constants_neg, x08_add_sub_eq, x08_as_u128_ord_index, t08_truncate_try_from, x08_add_sub_assign, x08_partial_eq);
+gf_common!(gf40, Gf40Bit, 5, 40, 42, q08_constants_neg, x08_add_sub_eq, x08_as_u128_ord_index, t08_truncate_try_from, x08_add_sub_assign, x08_partial_eq);
 
 // ---- multiplication ---------------------------------------------------------------------
 // `$mulref`: for all a, b: Mul == polynomial product mod POLYNOMIAL, zero padding, and (small
@@ -240,13 +240,13 @@ macro_rules! gf_mul {
     };
 }
 
-gf_mul!(gf2_mul, gf2, Gf2, 10, q08_mul_ref, t08_mul_comm_identity, t08_mul_assoc, t08_mul_distrib, t08_inverse);
-gf_mul!(gf3_mul, gf3, Gf3Bit, 10, q08_mul_ref, t08_mul_comm_identity, t08_mul_assoc, t08_mul_distrib, t08_inverse);
-gf_mul!(gf8_mul, gf8, Gf8Bit, 10, q08_mul_ref, t08_mul_comm_identity, t08_mul_assoc, t08_mul_distrib, x08_inverse);
-gf_mul!(gf9_mul, gf9, Gf9Bit, 18, q08_mul_ref, t08_mul_comm_identity, t08_mul_assoc, t08_mul_distrib, x08_inverse);
-gf_mul!(gf20_mul, gf20, Gf20Bit, 26, t08_mul_ref, x08_mul_comm_identity, x08_mul_assoc, x08_mul_distrib, x08_inverse);
-gf_mul!(gf32_mul, gf32, Gf32Bit, 34, t08_mul_ref, x08_mul_comm_identity, x08_mul_assoc, x08_mul_distrib, x08_inverse);
-gf_mul!(gf40_mul, gf40, Gf40Bit, 42, t08_mul_ref, x08_mul_comm_identity, x08_mul_assoc, x08_mul_distrib, x08_inverse);
+gf_mul!(gf2_mul, gf2, Gf2, 10, q08_mul_ref, t08_mul_comm_identity, x08_mul_assoc, x08_mul_distrib, x08_inverse);
+gf_mul!(gf3_mul, gf3, Gf3Bit, 10, q08_mul_ref, t08_mul_comm_identity, x08_mul_assoc, t08_mul_distrib, t08_inverse);
+gf_mul!(gf8_mul, gf8, Gf8Bit, 10, q08_mul_ref, t08_mul_comm_identity, x08_mul_assoc, x08_mul_distrib, x08_inverse);
+gf_mul!(gf9_mul, gf9, Gf9Bit, 18, q08_mul_ref, t08_mul_comm_identity, x08_mul_assoc, x08_mul_distrib, x08_inverse);
+gf_mul!(gf20_mul, gf20, Gf20Bit, 26, x08_mul_ref, x08_mul_comm_identity, x08_mul_assoc, x08_mul_distrib, x08_inverse);
+gf_mul!(gf32_mul, gf32, Gf32Bit, 34, x08_mul_ref, x08_mul_comm_identity, x08_mul_assoc, x08_mul_distrib, x08_inverse);
+gf_mul!(gf40_mul, gf40, Gf40Bit, 42, x08_mul_ref, x08_mul_comm_identity, x08_mul_assoc, x08_mul_distrib, x08_inverse);
 
 // ---- the modulus, exported to the SMT side queries ---------------------------------------
 // The driver reads POLYNOMIAL out of the compiled code through the counterexample of this
